@@ -7,8 +7,9 @@
     that discharges Assert obligations automatically;
 (3) keys for the remaining obligations that do not depend on positions or variable names, to be looked up in an
     audited table."""
+import os
 import re
-from .mirlib import call_info, strip, strip_casts, fmt
+from .mirlib import call_info, strip, strip_casts, fmt, short
 
 INT_RANGES = {
     'u8': (0, 2 ** 8 - 1), 'u16': (0, 2 ** 16 - 1), 'u32': (0, 2 ** 32 - 1), 'u64': (0, 2 ** 64 - 1),
@@ -696,15 +697,21 @@ def canon_names(body):
             continue
         if l <= body.arg_count:
             names[l] = 'arg%d' % l
-        elif d.get('user'):
+        elif d.get('user') or d.get('iuser'):
             names[l] = 'v%d' % n
             n += 1
     return names
 
 
+CANON_INLINE_USER = os.environ.get('VERIF_PO_CANON', 'new') != 'old'
+
+
 def canon_expr(body, o, names=None):
+    """canonical operand text of an obligation key. Single-assignment `let` bindings are looked through (so naming a
+    sub-expression, or caching a field in a local, does not change a key); variables assigned more than once are named
+    positionally (v<N>, alpha-renamed to x<K> per key)."""
     names = names or canon_names(body)
-    e = strip_casts(body.expr_operand(o, inline_user=False))
+    e = strip_casts(body.expr_operand(o, inline_user=True if CANON_INLINE_USER else False))
     return canon_fmt(e, names)
 
 
@@ -784,6 +791,24 @@ def obligations(body, ia=None):
     return out
 
 
+def _merged_obligations(nb, ia, own_only=False):
+    """obligations of an inlined/threaded body, one per (kind, operands, original block): a block duplicated by jump
+    threading yields one obligation that is discharged only if every copy is"""
+    merged = {}
+    order = []
+    for o in obligations(nb, ia):
+        blk = nb.blocks[o['bb']]
+        if own_only and blk.get('inl'):
+            continue
+        k = (o['kind'], o['ops'], blk.get('clone_of', o['bb']))
+        if k in merged:
+            merged[k]['discharged'] = merged[k]['discharged'] and o['discharged']
+        else:
+            merged[k] = o
+            order.append(k)
+    return [merged[k] for k in order]
+
+
 def obligations_in_context(facts, body, keep=None):
     """obligations of `body` itself, decided on the body with its private helpers analysed in place (rules/inline.py):
     facts established by a helper (a validation returning Err, an assertion) refine the caller's state. Obligations
@@ -793,19 +818,64 @@ def obligations_in_context(facts, body, keep=None):
     ia = Intervals(nb, facts).run()
     if nb is body:
         return obligations(body, ia)
-    merged = {}
-    order = []
-    for o in obligations(nb, ia):
-        blk = nb.blocks[o['bb']]
-        if blk.get('inl'):
+    return _merged_obligations(nb, ia, own_only=True)
+
+
+def _po_policy(facts, caller, callee, keep):
+    return callee.kind in ('Fn', 'AssocFn') and not (keep is not None and keep(callee.path)) and len(callee.blocks) <= 120
+
+
+def scan(facts, bodies, known, field_inv=None):
+    """Enumerate panic obligations for an audited rule so that keys survive helper extraction.
+
+    `known` is the frozen set of function paths that existed when the rule's table was audited. Functions in it are
+    analysed as themselves. A function that is *not* in it (a helper extracted later) is analysed in place inside every
+    known caller: its obligations appear under the caller's key with the caller's operand names - exactly where they were
+    before the extraction - and it is not analysed a second time on its own. A new function that cannot be analysed in
+    place (too large, recursive, only reached through a closure) is analysed on its own, so nothing is skipped.
+    Yields (body, analysed_body, intervals, obligations)."""
+    from . import inline
+    known = frozenset(known)
+    keep = lambda p: p in known
+    out = []
+    covered = set()
+    later = []
+    for b in bodies:
+        if b.path not in known and b.kind in ('Fn', 'AssocFn'):
+            later.append(b)
             continue
-        k = (o['kind'], o['ops'], blk.get('clone_of', o['bb']))
-        if k in merged:
-            merged[k]['discharged'] = merged[k]['discharged'] and o['discharged']
-        else:
-            merged[k] = o
-            order.append(k)
-    return [merged[k] for k in order]
+        nb = inline.inlined(facts, b, keep, policy=_po_policy)
+        covered.update(getattr(nb, 'inlined_callees', []))
+        ia = Intervals(nb, facts, field_inv=field_inv).run() if field_inv is not None else Intervals(nb, facts).run()
+        obs = obligations(b, ia) if nb is b else _merged_obligations(nb, ia)
+        out.append((b, nb, ia, obs))
+    for b in later:
+        if b.path in covered:
+            continue
+        nb = inline.inlined(facts, b, keep, policy=_po_policy)
+        covered.update(getattr(nb, 'inlined_callees', []))
+        ia = Intervals(nb, facts, field_inv=field_inv).run() if field_inv is not None else Intervals(nb, facts).run()
+        obs = obligations(b, ia) if nb is b else _merged_obligations(nb, ia)
+        out.append((b, nb, ia, obs))
+    # fail closed: a call to a crate function that is neither known, nor analysed in place, nor in the rule's body list
+    listed = {b.path for b in bodies}
+    for (b, nb, ia, obs) in out:
+        for bb, t in nb.calls():
+            info = call_info(t)
+            if not info or info.get('crate') != facts.crate:
+                continue
+            cp = info.get('res') or info['fn']
+            cb = facts.bodies.get(cp) or facts.bodies.get(info['fn'])
+            if cb is None or cb.kind not in ('Fn', 'AssocFn'):
+                continue
+            if cb.path in known or cb.path in listed or cb.path in covered:
+                continue
+            if not cb.path.startswith(b.path.rsplit('::', 2)[0]):
+                continue        # other modules: outside this rule's scope, as before
+            obs.append({'kind': 'unanalysed-callee', 'ops': short(cb.path), 'bb': bb, 'discharged': False,
+                        'where': nb.loc(bb), 'detail': 'new function %s is called here but could not be analysed in place' % cb.path,
+                        'ty': ''})
+    return out
 
 
 def _obligations(body, ia=None):
